@@ -900,7 +900,7 @@ def main():
               "" if not (nviol or ndis) else "%d monitor failures, %d disagreements" % (nviol, ndis))
     ck.cov["evaluations"] = len(cases) * len(builds)
     def size_of(l):
-        h = l.split("|")[0].split(); return int(h[{"S": 6, "I": 4, "Z": 3, "K": 3}.get(h[0], 2)])
+        h = l.split("|")[0].split(); return int(h[{"S": 6, "I": 4, "Z": 3, "K": 3, "X": 4}.get(h[0], 2)])
     ck.cov["distinct_nontrivial"] = len(set(l for k, l in cases if size_of(l) >= 2))
     ck.cov["rule"] = ("solve(A,b,tag,side) for 8 tags x left/right x row/column-major A x vector / row-major / column-major matrix right-hand side, sizes 1..12 "
                       "(plus sizes around the blocking threshold 32; up to 40 in thorough), exact stream (integer factors, power-of-two/unit diagonals: equality with the Q model and zero residual), "
